@@ -246,4 +246,118 @@ theorem jittered_ideal_bounded_aux (cfg : Cfg) (a pct r s : Nat) (hp : pct ≤ 1
   have h2 := ideal_capped_aux cfg a
   omega
 
+/-! ## the builder: a fold of setters whose result depends only on the last value of each setting -/
+
+/-- the setter is a `multiplier(..)` (otherwise a `max_interval(..)`) -/
+def Setter.isMult : Setter → Bool
+  | .mult _ _ => true
+  | .cap _ => false
+
+/-- the multiplier set last in a chain, if any -/
+def lastMult : List Setter → Option (Nat × Nat)
+  | [] => none
+  | s :: tl =>
+    match lastMult tl with
+    | some r => some r
+    | none =>
+      match s with
+      | .mult p q => some (p, q)
+      | .cap _ => none
+
+/-- the maximum set last in a chain, if any -/
+def lastCap : List Setter → Option Nat
+  | [] => none
+  | s :: tl =>
+    match lastCap tl with
+    | some r => some r
+    | none =>
+      match s with
+      | .cap c => some c
+      | .mult _ _ => none
+
+/-- `cfg` with its multiplier / maximum replaced where a value is given -/
+def ofLast (cfg : Cfg) (m : Option (Nat × Nat)) (c : Option Nat) : Cfg :=
+  { initial := cfg.initial, num := (m.getD (cfg.num, cfg.den)).1, den := (m.getD (cfg.num, cfg.den)).2,
+    cap := match c with | some x => some x | none => cfg.cap }
+
+theorem foldl_last (l : List Setter) (cfg : Cfg) :
+    l.foldl applySetter cfg = ofLast cfg (lastMult l) (lastCap l) := by
+  induction l generalizing cfg with
+  | nil => rfl
+  | cons s tl ih =>
+    simp only [List.foldl_cons]
+    rw [ih]
+    cases s with
+    | mult p q =>
+      simp only [lastMult, lastCap]
+      cases lastMult tl <;> cases lastCap tl <;> simp [ofLast, applySetter]
+    | cap c =>
+      simp only [lastMult, lastCap]
+      cases lastMult tl <;> cases lastCap tl <;> simp [ofLast, applySetter]
+
+/-- the result of a chain is determined by the last multiplier and the last maximum in it -/
+theorem build_last (i : Nat) (l : List Setter) : build i l = ofLast (newCfg i) (lastMult l) (lastCap l) :=
+  foldl_last l (newCfg i)
+
+theorem lastMult_append (l r : List Setter) :
+    lastMult (l ++ r) = match lastMult r with | some x => some x | none => lastMult l := by
+  induction l with
+  | nil => simp [lastMult]; cases lastMult r <;> rfl
+  | cons s tl ih =>
+    simp only [List.cons_append, lastMult, ih]
+    cases lastMult r <;> simp
+
+theorem lastCap_append (l r : List Setter) :
+    lastCap (l ++ r) = match lastCap r with | some x => some x | none => lastCap l := by
+  induction l with
+  | nil => simp [lastCap]; cases lastCap r <;> rfl
+  | cons s tl ih =>
+    simp only [List.cons_append, lastCap, ih]
+    cases lastCap r <;> simp
+
+theorem lastMult_none_of (l : List Setter) (h : ∀ s ∈ l, s.isMult = false) : lastMult l = none := by
+  induction l with
+  | nil => rfl
+  | cons s tl ih =>
+    simp only [lastMult, ih (fun s' hs' => h s' (List.mem_cons_of_mem _ hs'))]
+    have hs := h s List.mem_cons_self
+    cases s <;> simp_all [Setter.isMult]
+
+theorem lastCap_none_of (l : List Setter) (h : ∀ s ∈ l, s.isMult = true) : lastCap l = none := by
+  induction l with
+  | nil => rfl
+  | cons s tl ih =>
+    simp only [lastCap, ih (fun s' hs' => h s' (List.mem_cons_of_mem _ hs'))]
+    have hs := h s List.mem_cons_self
+    cases s <;> simp_all [Setter.isMult]
+
+/-- a `multiplier(p/q)` after which no other `multiplier` follows is the last one, whatever else stands around it -/
+theorem lastMult_append_cons (pre post : List Setter) (p q : Nat) (h : ∀ s ∈ post, s.isMult = false) :
+    lastMult (pre ++ .mult p q :: post) = some (p, q) := by
+  rw [lastMult_append]
+  simp [lastMult, lastMult_none_of post h]
+
+theorem lastCap_append_cons (pre post : List Setter) (c : Nat) (h : ∀ s ∈ post, s.isMult = true) :
+    lastCap (pre ++ .cap c :: post) = some c := by
+  rw [lastCap_append]
+  simp [lastCap, lastCap_none_of post h]
+
+/-- two adjacent setters of different settings may be exchanged -/
+theorem last_swap (pre post : List Setter) (s t : Setter) (h : s.isMult ≠ t.isMult) :
+    lastMult (pre ++ s :: t :: post) = lastMult (pre ++ t :: s :: post) ∧
+    lastCap (pre ++ s :: t :: post) = lastCap (pre ++ t :: s :: post) := by
+  rw [lastMult_append, lastMult_append, lastCap_append, lastCap_append]
+  cases s <;> cases t <;> simp [Setter.isMult] at h <;>
+    (simp only [lastMult, lastCap]; cases lastMult post <;> cases lastCap post <;> simp)
+
+/-- of two adjacent setters of the same setting only the second counts -/
+theorem last_override (pre post : List Setter) (s t : Setter) (h : s.isMult = t.isMult) :
+    lastMult (pre ++ s :: t :: post) = lastMult (pre ++ t :: post) ∧
+    lastCap (pre ++ s :: t :: post) = lastCap (pre ++ t :: post) := by
+  rw [lastMult_append, lastMult_append, lastCap_append, lastCap_append]
+  cases s <;> cases t <;> simp [Setter.isMult] at h <;>
+    (simp only [lastMult, lastCap]; cases lastMult post <;> cases lastCap post <;> simp)
+
+theorem ofLast_capNs (cfg : Cfg) (m : Option (Nat × Nat)) (c : Nat) : (ofLast cfg m (some c)).capNs = c := rfl
+
 end TR.Backoff
